@@ -481,7 +481,7 @@ package proxy
 //@ func (*ReverseProxy).UseOwnCACertificates
 //@   requires rp != nil
 //@ func (*ReverseProxy).UseClientCertificates
-//@   requires rp != nil
+//@   requires rp != nil && keyPair != nil
 //@ // a resolver answering without error returns non-nil records (net.LookupSRV does): assumed
 //@ extern invoke:(github.com/tmpim/casket/caskethttp/proxy.srvResolver).LookupSRV
 //@   ensures result2 == nil ==> forall(k, 0, len(result1), result1[k] != nil)
@@ -639,7 +639,22 @@ package proxy
 //@   loop 1 invariant u == nil ==> longestMatch == 0
 //@   loop 1 invariant forall(k, 0, #i, okUp(k) ==> longestMatch >= len(p.Upstreams[k].From()))
 
-//@ unit reverse_proxy_rest_sweep props=C19,C04 files=reverseproxy.go nilchecks=on nonnil_params=on exclude=`proxy\.ReverseProxy\)\.ServeHTTP$|proxy\.(copyHeader|singleJoiningSlash|isWebsocket|pooledIoCopy|skipTerminalControlCharacters|shallowCopyTrailers|requestIsWebsocket)$|NewSingleHostReverseProxy\$1` filter=`.`
+//@ unit transport_tls frames=on props=C11 nilchecks=on filter=`proxy\.ReverseProxy\)\.Use(InsecureTransport|OwnCACertificates|ClientCertificates)$`
+//@ // what the `proxy` setup calls on each upstream's reverse proxy for insecure_skip_verify, ca_certificates and tls_client
+//@ // (unit upstream_hosts uses these contracts): safe for EVERY kind of transport the constructor may have installed - an
+//@ // http.Transport or the QUIC round tripper, with or without a TLS client configuration yet, or any other - and writing
+//@ // nothing but that transport's TLS client configuration
+//@ func (*ReverseProxy).UseInsecureTransport
+//@   requires rp != nil
+//@   modifies Transport.TLSClientConfig, RoundTripper.TLSClientConfig, Config.InsecureSkipVerify
+//@ func (*ReverseProxy).UseOwnCACertificates
+//@   requires rp != nil
+//@   modifies Transport.TLSClientConfig, RoundTripper.TLSClientConfig, Config.RootCAs
+//@ func (*ReverseProxy).UseClientCertificates
+//@   requires rp != nil && keyPair != nil
+//@   modifies Transport.TLSClientConfig, RoundTripper.TLSClientConfig, Config.Certificates, E:crypto/tls.Certificate
+
+//@ unit reverse_proxy_rest_sweep props=C19,C04 files=reverseproxy.go nilchecks=on nonnil_params=on exclude=`proxy\.ReverseProxy\)\.ServeHTTP$|proxy\.(copyHeader|singleJoiningSlash|isWebsocket|pooledIoCopy|skipTerminalControlCharacters|shallowCopyTrailers|requestIsWebsocket)$|NewSingleHostReverseProxy\$1|ReverseProxy\)\.Use(InsecureTransport|OwnCACertificates|ClientCertificates)$` filter=`.`
 //@ // the rest of reverseproxy.go (constructors, dial helpers, hijacked-connection replay, flush-latency writer, port
 //@ // stripping): safety sweep on configuration data and on bytes from the backend
 //@ use @verif/specs/stdlib.spec:stdlib
